@@ -10,13 +10,8 @@ import e1check
 # of CPU against < 1 ms for an OS-thread case, so the thorough tier (400000 cases) uses a smaller share
 TASK_SHARE = 1 if e1check.tier() == 'thorough' else 3
 
-# finding call-once-rethrow-after-yield: is the repair (fix commit on hooks-C09p: call_once leaves its catch
-# handler before it stores / sets / rethrows) present in the tree under test?
-_once_hpp = os.path.join(os.environ.get('VERIF_REPO', '/repo'), 'libs/pika/synchronization/include/pika/synchronization/once.hpp')
-try:
-    ONCE_REPAIRED = 'std::rethrow_exception(ep)' in open(_once_hpp).read()
-except OSError:
-    ONCE_REPAIRED = False
+# (the call_once rethrow-after-yield defect found by this mode is repaired in /repo: `fixed:` line in known_findings.txt;
+# its case findings/C09-call-once-rethrow-after-yield.case runs with the corpus on every run and must pass)
 
 
 def split_updates(rng, total):
@@ -90,11 +85,8 @@ def gen(rng, cid):
         extra = ' agent=task'
         if rng.below(2) == 0:
             # lean variant: also the wait for the baton is a real suspension, so no task ever blocks a worker
-            # and the n tasks run on W = 1..3 workers (mostly fewer workers than participants).  call_once
-            # cases are pinned to one worker on the unrepaired tree: with W > 1 a failed winner that is
-            # suspended inside call_once' catch handler can be resumed by another worker and its `throw;`
-            # then terminates the process (finding call-once-rethrow-after-yield, replayed below)
-            extra += ' workers=%d' % (1 if (kind == 'once' and not ONCE_REPAIRED) else 1 + rng.below(3))
+            # and the n tasks run on W = 1..3 workers (mostly fewer workers than participants)
+            extra += ' workers=%d' % (1 + rng.below(3))
         txt = head + extra + '\n' + rest
     return txt
 
@@ -132,8 +124,6 @@ e1check.run(dict(
     corr_name='E1 log of harness/e1/c09l.cpp (real pika::latch / event / call_once, callers on OS threads or on pika tasks) accepted by the Lean acceptors Latch.step / Once.step',
     trusted_extra=['log parser of lean/Driver/LatchDrv.lean / OnceDrv.lean: grant lines of preemption points that carry no state change are dropped as stutter (latch.count_down, latch.inlock, event.wait, event.set, event.inlock, once.cas, once.reset, once.done, once.fail) and cv.pop / cv.all are merged with the agent resume lines that follow them inside the same atomic block',
                    'try_wait / reset / occurred are one-line functions that cannot take an add-only hook: the harness invocation point is the preemption point in front of their single atomic access'],
-    findings=([] if ONCE_REPAIRED else [dict(id='call-once-rethrow-after-yield', case='findings/C09-call-once-rethrow-after-yield.case',
-                                             signature='crash exit=255')]),
     assumptions=['barrier part of C09 is checked separately (Props/C09Barrier.lean)',
                  'the execution agent resumes a suspended thread only after a resume call (no spurious wake-ups): latch::wait calls cond_.wait once without re-checking'],
 ))
